@@ -184,6 +184,25 @@ Theorem C13_threads_reclaimed_count_by_construction : forall n,
   th_zombie (th_run true (th_cycles n ++ [ThShutdown])) = 0.
 Proof. intros n. split; [apply threads_never_joined | split; [apply shutdown_does_not_reclaim_them | apply threads_reclaimed_when_detached]]. Qed.
 
+(* --- rfbShutdownServer against the listener thread: OPEN, finding C13-N6.  HEAD closes and joins the clients BEFORE it stops the
+   listener: a client the listener has linked but not yet given a thread gets a pthread_join on a thread that does not exist,
+   and its thread is created after the shutdown has passed it *)
+Theorem C13_shutdown_joins_unstarted_thread_refuted :
+  let s := run ls_st (ls_step false) ls_witness ls_init in ls_badjoin s = true /\ ls_late s = true.
+Proof. exact shutdown_joins_unstarted_thread. Qed.
+
+(* with notes/fix_C13_7.diff (NOT in /repo: listener stopped and joined first), ONE incoming connection at any moment: *)
+Theorem C13_shutdown_joins_only_started_threads_fixed : forall sched,
+  let s := run ls_st (ls_step true) sched ls_init in
+  ls_badjoin s = false /\ ls_late s = false /\
+  (ls_final s = true \/ exists t, t < 2 /\ enabled ls_st (ls_step true) t s = true) /\
+  ls_final (run ls_st (ls_step true) ls_finishing s) = true.
+Proof. exact shutdown_joins_only_started_threads. Qed.
+
+Example C13_shutdown_listener_nonvacuous :
+  let s := run ls_st (ls_step true) [1; 0; 1; 1; 0; 0] ls_init in ls_final s = true /\ ls_listed s = true /\ ls_thread s = true /\ ls_ok s = true.
+Proof. exact shutdown_listener_nonvacuous. Qed.
+
 (* --- cursor bracket: OPEN, finding C13-F11, two output threads (per-screen save buffer, per-client brackets) *)
 Theorem C13_cursor_bracket_atomic_refuted :
   let s := run cur_st (cur_step false) cur_witness cur_init in
